@@ -115,9 +115,11 @@ def impl(case):
         for lname, A in alt_layouts(M).items():
             keep = A.copy()
             for name, f in (('left', linalg.left_eigenvectors), ('right', linalg.right_eigenvectors)):
-                vals = f(A, nvals=case['nvals'])[0]
+                vals, vecs = f(A, nvals=case['nvals'])
                 if [_c(v) for v in vals] != out[name]['vals']:
                     diff.append('%s eigenvalues of a %s matrix differ from those of the C-ordered matrix' % (name, lname))
+                elif [[_c(x) for x in v] for v in vecs] != out[name]['vecs']:
+                    diff.append('%s eigenvectors of a %s matrix differ from those of the C-ordered matrix' % (name, lname))
             if not np.array_equal(keep, A):
                 diff.append('a %s matrix was modified' % lname)
         out['layout_diff'] = diff
